@@ -142,8 +142,11 @@ class LiteDRAMAXI2NativeW(Module):
         self.comb += [
             # Only send write data after a matching write command has been
             # accepted. This keeps delayed native wdata_ready pulses from
-            # consuming data ahead of the command stream.
-            w_buffer_send.eq((w_buffer_level != 0) | w_buffer_queue),
+            # consuming data ahead of the command stream. The data of a burst's
+            # first beat waits for the cycle after its command: the burst's ID
+            # only becomes visible at the ID buffer's output then, and a single
+            # beat burst needs it for its response.
+            w_buffer_send.eq((w_buffer_level != 0) | (w_buffer_queue & ~aw.first)),
             If(axi_w_connect, axi.w.connect(w_buffer.sink)),
             port.wdata.valid.eq(w_buffer.source.valid & w_buffer_send),
             port.wdata.data.eq(w_buffer.source.data),
